@@ -15,31 +15,6 @@ import (
 	"github.com/cloudwego/eino/verifharness/vh"
 )
 
-// c20WfExt: how the workflow side is built (the lowered form is in Ops)
-type c20WfExt struct {
-	Nodes  []c20WfNode `json:"nodes"`
-	EndIn  []c20WfIn   `json:"endIn"`
-	Branch []c20Op     `json:"branches,omitempty"`
-	Static string      `json:"static,omitempty"` // node key that gets a static value on field path Y.Z
-	// calls after the first Compile
-	Recompiles int `json:"recompiles"`
-}
-
-type c20WfNode struct {
-	Key string    `json:"key"`
-	PT  bool      `json:"pt,omitempty"`
-	In  string    `json:"in,omitempty"`
-	Out string    `json:"out,omitempty"`
-	Dyn string    `json:"dyn,omitempty"`
-	Ins []c20WfIn `json:"ins"`
-}
-
-type c20WfIn struct {
-	From   string `json:"from"`
-	Kind   string `json:"kind"` // input | dep | indirect
-	Mapped bool   `json:"mapped,omitempty"`
-}
-
 type c20ChainB interface {
 	appendLambda(l *compose.Lambda, opts ...compose.GraphAddNodeOpt)
 	appendPassthrough(opts ...compose.GraphAddNodeOpt)
@@ -309,10 +284,20 @@ func c20GenChain(r *vh.Rand) *c20Case {
 	prev := "start"
 	var ops []c20Op
 	idx := 0
+	nodes, hasEnd := 0, false
 	add := func(op c20Op) {
 		ops = append(ops, op)
 		ops = append(ops, c20Op{Op: "edge", S: prev, E: op.Key})
 		prev = op.Key
+		nodes++
+	}
+	// Chain.Compile: addEndIfNeeded adds the END edge once, the first time the chain is not empty
+	compileOp := func(comp c20Op) {
+		if !hasEnd && nodes > 0 {
+			ops = append(ops, c20Op{Op: "edge", S: prev, E: "end"})
+			hasEnd = true
+		}
+		ops = append(ops, comp)
 	}
 	for i := 0; i < n; i++ {
 		key := fmt.Sprintf("node_%d", idx)
@@ -354,9 +339,6 @@ func c20GenChain(r *vh.Rand) *c20Case {
 	} else {
 		c.OutT = c20Pick(r, basic)
 	}
-	if n > 0 {
-		ops = append(ops, c20Op{Op: "edge", S: prev, E: "end"})
-	}
 	comp := c20Op{Op: "compile"}
 	if r.Chance(15) {
 		comp.Mode = c20Pick(r, []string{"any", "all"})
@@ -364,17 +346,17 @@ func c20GenChain(r *vh.Rand) *c20Case {
 	if r.Chance(10) {
 		comp.MaxSteps = r.Range(1, 20)
 	}
-	ops = append(ops, comp)
+	compileOp(comp)
 	for k := r.Intn(3); k > 0; k-- {
-		if r.Chance(40) { // an append after Compile (silently refused), then Compile again
-			ops = append(ops, c20Op{Op: "node", Key: fmt.Sprintf("node_%d", idx), In: "c0", Out: "c0", Dyn: "c0"})
+		if r.Chance(40) { // an append after Compile (refused silently if it succeeded), then Compile again
+			add(c20Op{Op: "node", Key: fmt.Sprintf("node_%d", idx), In: c20CompatibleIn(r, cur), Out: "c0", Dyn: "c0"})
 			idx++
 		}
 		cc := comp
 		if r.Chance(25) {
 			cc.Mode = c20Pick(r, []string{"", "all"})
 		}
-		ops = append(ops, cc)
+		compileOp(cc)
 	}
 	c.Ops = ops
 	return c
@@ -446,8 +428,12 @@ func c20GenWorkflow(r *vh.Rand) *c20Case {
 		if i >= 2 && r.Chance(30) {
 			nd.Ins = append(nd.Ins, c20WfIn{From: names[r.Intn(i-1)], Kind: "dep"})
 		}
-		if r.Chance(5) {
-			nd.Ins = append(nd.Ins, c20WfIn{From: "ghost", Kind: "input"})
+		if r.Chance(5) { // unknown predecessor (a node takes at most one whole-output input: C15's rule)
+			if r.Bool() {
+				nd.Ins[0].From = "ghost"
+			} else {
+				nd.Ins = append(nd.Ins, c20WfIn{From: "ghost", Kind: "dep"})
+			}
 		}
 		if r.Chance(6) && i+1 < n { // dependency on a later node: a cycle
 			nd.Ins = append(nd.Ins, c20WfIn{From: names[i+1], Kind: "dep"})
